@@ -32,7 +32,7 @@ EXTRA = {"C05_B": ["C17"], "C15_B": ["C15", "C16"], "C16_B": ["C16", "C15"], "C1
          "C08_M": ["C08", "C14"], "C05_M": ["C05", "C15"], "C05_N": ["C05", "C03"], "C09_N": ["C09", "C15", "C16"], "C15_N": ["C15", "C16"],
          "C20_M": ["C20", "C17"], "C13_M": ["C13", "C15"], "C01_M": ["C01", "C03"], "C01_N": ["C01", "C17"],
          "C02_P": ["C02", "C15"], "C03_P": ["C03", "C15"], "C04_O": ["C04", "C08"], "C04_P": ["C04", "C15"], "C12_P": ["C12", "C15"], "C11_P": ["C11"],
-         "C15_P": ["C15", "C16"], "C17_O": ["C17", "C15"], "C19_P": ["C19", "C15"], "C08_O": ["C08", "C13"], "C05_O": ["C05", "C13"]}
+         "C15_P": ["C15", "C16"], "C06_Q": ["C06", "C03"], "C06_R": ["C06", "C03"], "C18_R": ["C18", "C17"], "C19_Q": ["C19", "C08"], "C17_O": ["C17", "C15"], "C19_P": ["C19", "C15"], "C08_O": ["C08", "C13"], "C05_O": ["C05", "C13"]}
 
 
 def sh(cmd):
@@ -100,7 +100,10 @@ def main():
                          "output formats, rare keywords, asymmetries, pairs of options, size guards)" if mid[-1] in "MN" else "")
                       + ("; eighth round: the agent saw one-line summaries of A-N, was told what a systematic tester enumerates, and was pointed at the "
                          "state of the interpreter around the call (numpy error state, warnings as errors, stdout, -O), module reloads, "
-                         "copied / pickled objects, equivalent entry points and arrangement extremes" if mid[-1] in "OP" else ""),
+                         "copied / pickled objects, equivalent entry points and arrangement extremes" if mid[-1] in "OP" else "")
+                      + ("; ninth round (ten properties, 30 minutes each): the agent saw summaries of A-P, was told that inputs, options, histories, "
+                         "environment and interpreter state are all enumerated, and was asked for silent value-level defects needing a "
+                         "combination of three or more conditions on 15-60-residue irregular inputs" if mid[-1] in "QR" else ""),
             "description_and_what_it_needs_to_manifest": desc.strip(),
             "confirmed_in_scratch_worktree": {
                 "procedure": "in /tmp/wt/%s: demo on clean tree, git apply patch, 42 stable tests (guard off), demo again, revert" % prop,
